@@ -55,7 +55,8 @@ def _job(item):
         j = f.to_json()
         j["name"] = name
         out.append(j)
-    return {"name": name, "skel": skel, "stats": ck.stats, "findings": out, "samples": ck.samples[:1], "wall_s": round(time.time() - t0, 2)}
+    return {"name": name, "skel": skel, "stats": ck.stats, "findings": out, "samples": ck.samples[:1], "wall_s": round(time.time() - t0, 2),
+            "witness_sample": ck.witness_log[:8]}
 
 
 def run_families(items, opts=None, jobs=None, deadline=None):
